@@ -158,6 +158,11 @@ fn pick_t(r: &mut Rng, m128: bool, edge: bool) -> usize {
 /// a 16-bit value in contended / uncontended memory on request
 fn addr_any(r: &mut Rng) -> u16 {
     let window = r.below(4);
+    // a quarter of the addresses sit on a window boundary, so that the two bytes of a word (stack, operand, code)
+    // lie in memory of different contention status
+    if r.chance(1, 4) {
+        return ((window as u16) * 0x4000).wrapping_sub(1).wrapping_add(r.below(3) as u16).wrapping_sub(r.below(2) as u16);
+    }
     (window as u16) * 0x4000 + (r.u16() & 0x3FFF)
 }
 
